@@ -800,3 +800,322 @@ Proof.
       rewrite Ep in T. cbn in T. unfold rank, d0. rewrite T, Ep, (Hld _ Er). larith.
   - discriminate.
 Qed.
+
+(** ---- the tracked upload along the phases ---- *)
+Definition lvl (ph : phase) : nat := match ph with Ph0 => 0 | Ph1 => 1 | _ => 2 end.
+
+Lemma lvl_next ph s e : lvl (ph_next ph s e) <= lv_next (lvl ph) (act_of s e).
+Proof.
+  destruct ph as [| | |t|]; cbn [ph_next lvl].
+  - unfold sync_starts. destruct (act_of s e) as [| | | | |[]| |]; cbn; lia.
+  - unfold sync_completes. destruct (act_of s e) as [| | | | |[]| |]; cbn; lia.
+  - transitivity 2; [destruct (getstate_tid _); cbn; lia|apply (lv_next_ge 2); lia].
+  - transitivity 2; [destruct (is_written _); [|destruct (is_wfail _ _ _)]; cbn; lia|apply (lv_next_ge 2); lia].
+  - apply (lv_next_ge 2). lia.
+Qed.
+
+(** before the covering sync starts the object's epoch is not yet synchronizing *)
+Definition unsynced (o : obj) (d : nat) (p : pbl) : Prop :=
+  o_block o < totalReleased p \/ synchronizingEpochs p <= o_epoch o - d.
+
+Lemma unsynced_act o d a p p' : apply_act a p = Ok p' ->
+  match a with ASyncStart | ASyncDone true => False | _ => True end ->
+  unsynced o d p -> unsynced o (d + popc a p) p'.
+Proof.
+  intros Ha Hns U. unfold unsynced in *.
+  assert (totalReleased p' = totalReleased p -> synchronizingEpochs p' = synchronizingEpochs p -> popc a p = 0 ->
+          o_block o < totalReleased p' \/ synchronizingEpochs p' <= o_epoch o - (d + popc a p)) as Hsame.
+  { intros -> -> ->. rewrite Nat.add_0_r. exact U. }
+  destruct a as [|al| |tok blk size seed| |[]|t|t]; cbn [apply_act popc] in *; try destruct Hns.
+  - inversion Ha; subst. apply Hsame; reflexivity.
+  - inversion Ha; subst. apply Hsame; try reflexivity; unfold push_back;
+      destruct (closedForWriting p); try reflexivity; destruct al; reflexivity.
+  - destruct (blocks p) as [|fb rest] eqn:Eb; [unfold pop_front in Ha; rewrite Eb in Ha; discriminate|].
+    destruct (pop_fields _ _ _ _ Eb Ha) as (_ & _ & _ & Ft & Fsy & _). rewrite Ft, Fsy.
+    destruct U as [U|U]; [left|right]; lia.
+  - destruct (put_finalize _ _ _ _ _) as [[p1 fr]|] eqn:Ef; [|discriminate]. cbn in Ha. inversion Ha; subst.
+    destruct (fin_cases _ _ _ _ _ _ _ Ef) as [[-> _]|
+      (abs & off & bumped & _ & _ & _ & _ & _ & _ & _ & _ & _ & _ & Ft & Fsy & _)]; apply Hsame; auto.
+  - inversion Ha; subst. destruct (nsc_fields p) as (_ & _ & _ & Ft & Fsy & _). apply Hsame; auto.
+  - destruct (get_persistent_state p) as [[p1 st]|] eqn:Eg; [|discriminate]. cbn in Ha. inversion Ha; subst.
+    destruct (gps_fields _ _ _ Eg) as [Hc _]. inversion Hc. apply Hsame; auto.
+  - destruct (nsw_fields _ _ Ha) as [Hc _]. inversion Hc. apply Hsame; auto.
+Qed.
+
+(** completed state writes: only a successful WritePersistentState adds one *)
+Lemma writes_step cfg s e s' : step cfg s e = Some (Ok s') ->
+  s_writes s' =
+  match e with
+  | EStep t a =>
+      match wpc_of t s with
+      | Some (WWriting st) =>
+          if a_ok a then mkWrec t st (length (releasedLog (s_pbl s)) + releasing (s_pbl s)) :: s_writes s
+          else s_writes s
+      | _ => s_writes s
+      end
+  | _ => s_writes s
+  end.
+Proof.
+  assert (forall me w a s1 w', wstep cfg me w a s = Some (Ok (s1, w')) ->
+            s_writes s1 = match w with
+                          | WWriting st => if a_ok a then mkWrec me st (length (releasedLog (s_pbl s)) + releasing (s_pbl s)) :: s_writes s
+                                           else s_writes s
+                          | _ => s_writes s end) as Hw.
+  { intros me w a s1 w'. unfold wstep. destruct w.
+    - destruct (s_store s); [discriminate|]. intros H; inversion H; subst. reflexivity.
+    - destruct (get_persistent_state _) as [[p' st]|]; [|discriminate]. intros H; inversion H; subst. reflexivity.
+    - destruct (a_ok a); intros H; inversion H; subst; reflexivity.
+    - destruct (notify_state_written _); [|discriminate]. intros H; inversion H; subst. reflexivity.
+    - destruct (_ <=? _)%N; [|discriminate]. intros H; inversion H; subst. reflexivity. }
+  destruct e as [alloc| |index size|k blk seed|d| |t a]; cbn [step].
+  - intros H; inversion H; subst. reflexivity.
+  - destruct (blocks (s_pbl s)); [discriminate|]. destruct (pop_front _); [|discriminate].
+    intros H; inversion H; subst. reflexivity.
+  - destruct (_ || _); [|discriminate]. destruct (put_start _ _); [|discriminate].
+    intros H; inversion H; subst. reflexivity.
+  - destruct (nth_error _ _) as [[[tok sz]|]|]; try discriminate.
+    destruct (put_finalize _ _ _ _ _) as [[p' fr]|]; [|discriminate]. intros H; inversion H; subst. reflexivity.
+  - intros H; inversion H; subst. reflexivity.
+  - intros H; inversion H; subst. reflexivity.
+  - destruct t; unfold wpc_of.
+    + unfold rstep. destruct (s_r s) as [|ch|w].
+      * intros H; inversion H; subst. reflexivity.
+      * destruct (is_closed _ _); [|discriminate]. intros H; inversion H; subst. reflexivity.
+      * destruct (wstep cfg TR w a s) as [[[s1 w']|]|] eqn:Ew; try discriminate.
+        pose proof (Hw _ _ _ _ _ Ew) as E. destruct w'; intros H; inversion H; subst; exact E.
+    + unfold pstep. destruct (s_p s) as [|ch|ch|dl|keep|keep final|keep final|keep final dl|keep w|].
+      * intros H; inversion H; subst. reflexivity.
+      * destruct (is_closed _ _); intros H; inversion H; subst; reflexivity.
+      * destruct (s_cancel s && _); [|destruct (is_closed _ _); [|discriminate]];
+          intros H; inversion H; subst; reflexivity.
+      * destruct (s_cancel s && _); [|destruct (_ && _)%bool; [|discriminate]];
+          intros H; inversion H; subst; reflexivity.
+      * intros H; inversion H; subst. reflexivity.
+      * destruct (a_ok a); intros H; inversion H; subst; reflexivity.
+      * destruct (negb keep && negb final); intros H; inversion H; subst; reflexivity.
+      * destruct (_ <=? _)%N; [|discriminate]. intros H; inversion H; subst. reflexivity.
+      * destruct (wstep cfg TP w a s) as [[[s1 w']|]|] eqn:Ew; try discriminate.
+        pose proof (Hw _ _ _ _ _ Ew) as E. destruct w'; intros H; inversion H; subst; exact E.
+      * discriminate.
+Qed.
+
+Lemma writes_incl cfg s e s' w : step cfg s e = Some (Ok s') -> In w (s_writes s) -> In w (s_writes s').
+Proof.
+  intros H Hi. rewrite (writes_step _ _ _ _ H). destruct e as [| | | | | |t a]; auto.
+  destruct (wpc_of t s) as [[]|]; auto. destruct (a_ok a); [right|]; exact Hi.
+Qed.
+
+Lemma step_released_mono cfg s e s' : step cfg s e = Some (Ok s') ->
+  totalReleased (s_pbl s) <= totalReleased (s_pbl s').
+Proof.
+  intros H. pose proof (act_rel _ _ _ (step_act _ _ _ _ H)) as R. unfold rel_same in R.
+  destruct (act_of s e); try (destruct R as (_ & _ & _ & ->); lia).
+  destruct R as (fb & rest & _ & _ & _ & _ & ->). lia.
+Qed.
+
+(** the state of the covering write, once it has started *)
+Definition cov (o : obj) (ph : phase) (s : sys) : Prop :=
+  match ph with
+  | Ph3 t => o_block o < totalReleased (s_pbl s)
+             \/ (exists st bi ei, wpc_of t s = Some (WWriting st) /\ covers st bi o ei)
+             \/ (wpc_of t s = Some WWritten /\
+                 exists w bi ei, hd_error (s_writes s) = Some w /\ covers (w_state w) bi o ei)
+  | PhDone => o_block o < totalReleased (s_pbl s)
+              \/ exists w bi ei, In w (s_writes s) /\ covers (w_state w) bi o ei
+  | _ => True
+  end.
+
+Definition uinv (o : obj) (ph : phase) (d : nat) (s : sys) : Prop :=
+  ainv s /\ cinv s /\ pinv ph s /\ tracked o (lvl ph) d (s_pbl s)
+  /\ (ph = Ph0 -> unsynced o d (s_pbl s)) /\ cov o ph s.
+
+Lemma wpc_of_frame cfg s e s' t : inv1 s -> step cfg s e = Some (Ok s') -> (forall a, e <> EStep t a) ->
+  wpc_of t s' = wpc_of t s.
+Proof.
+  intros II H Hne. unfold wpc_of. destruct t.
+  - rewrite (r_frame _ _ _ _ II H Hne). reflexivity.
+  - rewrite (p_frame _ _ _ _ II H Hne). reflexivity.
+Qed.
+
+Lemma t_or_not t e : (exists a, e = EStep t a) \/ (forall a, e <> EStep t a).
+Proof. destruct t; [apply tr_or_not|apply tp_or_not]. Qed.
+
+Lemma step_cov cfg o ph d s e s' : uinv o ph d s -> step cfg s e = Some (Ok s') -> cov o (ph_next ph s e) s'.
+Proof.
+  intros (A & C & P & T & U & V) H. pose proof A as [[II L] [_ I3]].
+  pose proof (step_released_mono _ _ _ _ H) as Hmono.
+  destruct ph as [| | |t|]; cbn [ph_next].
+  - destruct (sync_starts s e); exact I.
+  - destruct (sync_completes s e); exact I.
+  - destruct (getstate_tid (act_of s e)) as [t|] eqn:Eg; [|exact I].
+    destruct (act_of s e) eqn:Ea; try discriminate. inversion Eg; subst t0.
+    destruct (getstate_step _ _ _ _ _ H Ea) as [p1 [st [Hgs [Hw _]]]].
+    cbn [cov]. cbn [lvl] in T.
+    destruct (gps_covers _ _ _ _ _ (proj1 II) L T Hgs) as [Hr|Hc]; [left; lia|right; left].
+    exists st, (o_block o - totalReleased (s_pbl s)), (o_epoch o - d). split; [|exact Hc].
+    unfold written_state in Hw. unfold wpc_of. destruct t.
+    + destruct (s_r s') as [| |[]]; try discriminate. congruence.
+    + destruct (s_p s') as [| | | | | | | |? []|]; try discriminate. congruence.
+  - cbn [pinv] in P. destruct P as [Hin Hp2]. cbn [cov] in V.
+    destruct (is_written (act_of s e)) eqn:Ew.
+    + (* the write completes *)
+      cbn [cov]. destruct (act_of s e) eqn:Ea; try discriminate.
+      pose proof (act_written_in_write _ _ _ Ea) as Hin'.
+      assert (t0 = t) as ->.
+      { destruct (other_cases t t0) as [->| ->]; [reflexivity|].
+        rewrite (in_write_excl _ _ I3 Hin) in Hin'. discriminate. }
+      destruct (act_wact s e t _ (or_intror eq_refl) Ea) as [a [-> Hwp]].
+      destruct V as [V|[(st & bi & ei & Hwr & _)|(_ & w & bi & ei & Hhd & Hc)]]; [left; lia|congruence|right].
+      exists w, bi, ei. split; [|exact Hc]. eapply writes_incl; eauto.
+      destruct (s_writes s); [discriminate|]. inversion Hhd; subst. left. reflexivity.
+    + destruct (is_wfail t s e) eqn:Ewf; [exact I|]. cbn [cov].
+      destruct V as [V|V]; [left; lia|right].
+      destruct (t_or_not t e) as [[a ->]|Hne].
+      * (* own step of the writer: WWriting st -> WWritten, the write is logged *)
+        unfold in_write in Hin. unfold is_wfail in Ewf.
+        destruct (wpc_of t s) as [[| |st| |]|] eqn:Ewp; try discriminate.
+        -- right. assert (a_ok a = true) as Hok.
+           { destruct (a_ok a); [reflexivity|]. destruct t; discriminate. }
+           pose proof (writes_step _ _ _ _ H) as Hws. cbn in Hws. rewrite Ewp, Hok in Hws.
+           destruct V as [(st' & bi & ei & Hwr & Hc)|(Hwr & _)]; [|discriminate].
+           inversion Hwr; subst st'. split.
+           ++ cbn [step] in H. unfold wpc_of in *. destruct t.
+              ** pose proof (rstep_pc _ _ _ _ H) as Tt. destruct (s_r s) as [| |w]; try discriminate.
+                 inversion Ewp; subst w. destruct Tt as [[_ ->]|[Hf _]]; [reflexivity|congruence].
+              ** pose proof (pstep_pc _ _ _ _ H) as Tt. destruct (s_p s) as [| | | | | | | |k w|]; try discriminate.
+                 inversion Ewp; subst w. destruct Tt as [[_ ->]|[Hf _]]; [reflexivity|congruence].
+           ++ eexists _, bi, ei. rewrite Hws. split; [reflexivity|exact Hc].
+        -- exfalso. assert (act_of s (EStep t a) = AWritten t) as Ea.
+           { unfold wpc_of in Ewp. destruct t.
+             - rewrite act_tr. destruct (s_r s) as [| |w]; try discriminate. inversion Ewp; subst. reflexivity.
+             - rewrite act_tp. destruct (s_p s) as [| | | | | | | |k w|]; try discriminate. inversion Ewp; subst. reflexivity. }
+           rewrite Ea in Ew. discriminate.
+      * rewrite (wpc_of_frame _ _ _ _ t II H Hne).
+        assert (s_writes s' = s_writes s) as Hws.
+        { rewrite (writes_step _ _ _ _ H). destruct e as [| | | | | |t' a]; try reflexivity.
+          assert (t' = other t) as ->.
+          { destruct (other_cases t t') as [->| ->]; [exfalso; eapply Hne; reflexivity|reflexivity]. }
+          pose proof (in_write_excl _ _ I3 Hin) as Hx. unfold in_write in Hx.
+          destruct (wpc_of (other t) s) as [[]|]; try reflexivity. discriminate. }
+        rewrite Hws. exact V.
+  - cbn [cov] in *. destruct V as [V|(w & bi & ei & Hi & Hc)]; [left; lia|right].
+    exists w, bi, ei. split; [eapply writes_incl; eauto|exact Hc].
+Qed.
+
+Lemma step_uinv cfg o ph d s e s' : uinv o ph d s -> step cfg s e = Some (Ok s') ->
+  uinv o (ph_next ph s e) (d + popc (act_of s e) (s_pbl s)) s'.
+Proof.
+  intros UI H. pose proof (step_cov _ _ _ _ _ _ _ UI H) as V'.
+  destruct UI as (A & C & P & T & U & V). pose proof A as [[II L] _].
+  split; [eapply step_ainv; eauto|]. split; [eapply step_cinv; eauto|].
+  split; [eapply step_pinv; eauto|].
+  split; [eapply tracked_weaken; [apply lvl_next|]; eapply tracked_act; eauto; eapply step_act; eauto|].
+  split; [|exact V'].
+  intros Eph. destruct ph as [| | |t|]; cbn [ph_next] in Eph.
+  - unfold sync_starts in Eph. eapply unsynced_act; [eapply step_act; eauto| |apply U; reflexivity].
+    destruct (act_of s e) as [| | | | |[]| |]; try discriminate; exact I.
+  - destruct (sync_completes s e); discriminate.
+  - destruct (getstate_tid _); discriminate.
+  - destruct (is_written _); [|destruct (is_wfail _ _ _)]; discriminate.
+  - discriminate.
+Qed.
+
+Lemma run_uinv cfg o tr : forall ph d s s', uinv o ph d s -> run cfg s tr = Some (Ok s') ->
+  uinv o (scan cfg ph s tr) (d + popsum cfg s tr) s'.
+Proof.
+  induction tr as [|e tr IH]; intros ph d s s' UI H; cbn in *.
+  - inversion H; subst. rewrite Nat.add_0_r. exact UI.
+  - destruct (step cfg s e) as [[s1|]|] eqn:Es; try discriminate.
+    rewrite Nat.add_assoc. eapply IH; [|exact H]. eapply step_uinv; eauto.
+Qed.
+
+(** ---- the drive: a fair extension of length <= rank reaches PhDone (or the
+    object's block is released) ---- *)
+Lemma uinv_pending o d s : uinv o Ph0 d s -> ~ o_block o < totalReleased (s_pbl s) ->
+  synchronizedEpochs (s_pbl s) < length (epochSeeds (s_pbl s)).
+Proof.
+  intros (A & _ & _ & T & U & _) Hnr. pose proof (ainv_pbl _ A) as I.
+  destruct (U eq_refl) as [U1|U1]; [contradiction|].
+  destruct T as [T|(_ & _ & b & la & _ & _ & _ & Hs & _)]; [contradiction|].
+  assert (o_epoch o - d < length (epochSeeds (s_pbl s))) by (apply nth_error_Some; congruence).
+  pose proof (i_sync1 _ I). lia.
+Qed.
+
+Lemma drive cfg o : forall n ph d s, rank ph s <= n -> uinv o ph d s ->
+  exists ext s' d', fair ext = true /\ length ext <= n /\ run cfg s ext = Some (Ok s')
+    /\ uinv o (scan cfg ph s ext) d' s'
+    /\ (scan cfg ph s ext = PhDone \/ o_block o < totalReleased (s_pbl s')).
+Proof.
+  induction n as [n IH] using lt_wf_ind. intros ph d s Hr UI.
+  destruct (lt_dec (o_block o) (totalReleased (s_pbl s))) as [Hrel|Hnr].
+  { exists [], s, d. splits; auto; try (cbn; lia). }
+  assert (ph = PhDone \/ progresses cfg ph s) as [->|(s1 & Hrun & Hdec)].
+  { pose proof UI as (A & C & P & _). destruct ph as [| | |t|]; [right|right|right|right|left; reflexivity].
+    - apply progress_ph0; auto. eapply uinv_pending; eauto.
+    - apply progress_ph1; auto.
+    - apply progress_ph2; auto.
+    - apply progress_ph3; auto. }
+  { exists [], s, d. splits; auto; try (cbn; lia). }
+  pose proof (run_uinv _ _ _ _ _ _ _ UI Hrun) as UI1.
+  assert (0 < length (choose ph s)) as Hpos.
+  { unfold choose. destruct ph as [| | |[]|]; cbn; try lia;
+      destruct (s_p s) as [| | | | | | | |? []|]; cbn; try lia; destruct (lockdist s); cbn; lia. }
+  assert (n - length (choose ph s) < n) as Hlt by lia.
+  assert (rank (scan cfg ph s (choose ph s)) s1 <= n - length (choose ph s)) as Hrk by lia.
+  destruct (IH _ Hlt _ _ _ Hrk UI1) as (ext & s' & d' & Hf & Hl & Hr' & UI' & Hg).
+  exists (choose ph s ++ ext), s', d'.
+  split; [apply fair_app; [apply choose_fair|exact Hf]|]. split; [rewrite app_length; lia|].
+  split; [rewrite (run_app _ _ _ _ _ Hrun); exact Hr'|].
+  rewrite (scan_app _ _ _ _ _ _ Hrun). split; [exact UI'|exact Hg].
+Qed.
+
+(** cinv holds in every reachable state *)
+Lemma run_cinv cfg tr : forall s s', inv1 s -> cinv s -> run cfg s tr = Some (Ok s') -> cinv s'.
+Proof.
+  induction tr as [|e tr IH]; intros s s' II C H; cbn in H.
+  - inversion H; subst. exact C.
+  - destruct (step cfg s e) as [[s1|]|] eqn:Es; try discriminate.
+    destruct (step_inv1 _ _ _ _ II Es) as [s2 [E [II' _]]]. inversion E; subst s2.
+    eapply IH; [exact II'| |exact H]. exact (step_cinv _ _ _ _ II C Es).
+Qed.
+
+Lemma reachable_cinv cfg alloc oldest init t0 s : reachable cfg alloc oldest init t0 s -> cinv s.
+Proof.
+  intros [tr H]. eapply run_cinv; [apply init_inv1| |exact H]. intros Hf. discriminate.
+Qed.
+
+(** every_upload_eventually_committed *)
+Theorem upload_eventually cfg alloc oldest init t0 s1 k blk seed s1' abs size off p' trp s :
+  reachable cfg alloc oldest init t0 s1 ->
+  step cfg s1 (EFinalize k blk seed) = Some (Ok s1') ->
+  nth_error (s_uploads s1) k = Some (Some (PutAt abs, size)) ->
+  put_finalize (PutAt abs) blk size seed (s_pbl s1) = Ok (p', FinOk off) ->
+  run cfg s1' trp = Some (Ok s) ->
+  exists ext s', fair ext = true /\ length ext <= 35 /\ run cfg s ext = Some (Ok s')
+    /\ (abs < totalReleased (s_pbl s')
+        \/ (scan cfg Ph0 s1' (trp ++ ext) = PhDone /\
+            exists w bi ei, In w (s_writes s') /\
+              covers (w_state w) bi (obj_of (s_pbl s1) p' abs (off + size)) ei)).
+Proof.
+  intros R Hs1 Hu Hf Hrun. set (o := obj_of (s_pbl s1) p' abs (off + size)).
+  destruct (fin_step _ _ _ _ _ _ _ _ Hs1 Hu) as [fr Hf']. rewrite Hf in Hf'. inversion Hf'; subst p'. clear Hf'.
+  pose proof (reachable_ainv _ _ _ _ _ _ R) as A1. pose proof (reachable_cinv _ _ _ _ _ _ R) as C1.
+  pose proof (ainv_pbl _ A1) as I1.
+  assert (uinv o Ph0 0 s1') as UI.
+  { split; [eapply step_ainv; eauto|]. split; [eapply step_cinv; eauto; exact (proj1 (proj1 A1))|].
+    destruct (fin_cases _ _ _ _ _ _ _ Hf) as [[_ Hn]|
+      (abs0 & off0 & bumped & Ht & _ & _ & Hcl & _ & _ & _ & Fs & _ & Hnb & Ft & Fsy & _ & _ & _ & _ & Fc & _)];
+      [exfalso; eapply Hn; reflexivity|].
+    split; [cbn; rewrite Fc; exact Hcl|]. split; [exact (fin_tracked _ _ _ _ _ _ _ I1 Hf)|]. split; [|exact I].
+    intros _. right. unfold o, obj_of. cbn [o_epoch]. rewrite Fsy, Fs, Nat.sub_0_r.
+    pose proof (i_sync2 _ I1) as H2. pose proof (i_len _ I1) as Hl. destruct bumped.
+    - rewrite app_length. cbn. lia.
+    - destruct (Hnb eq_refl) as [Hne _]. lia. }
+  pose proof (run_uinv _ _ _ _ _ _ _ UI Hrun) as UIs.
+  destruct (drive cfg o 35 _ _ _ (rank_le _ _) UIs) as (ext & s' & d' & Hfair & Hlen & Hr & UI' & Hg).
+  exists ext, s'. split; [exact Hfair|]. split; [exact Hlen|]. split; [exact Hr|].
+  rewrite (scan_app _ _ _ _ _ _ Hrun).
+  destruct Hg as [Hd|Hrel]; [|left; exact Hrel].
+  destruct UI' as (_ & _ & _ & _ & _ & V). rewrite Hd in V. cbn [cov] in V.
+  destruct V as [V|V]; [left; exact V|right]. split; [exact Hd|exact V].
+Qed.
